@@ -117,7 +117,10 @@ def runStart (res : Nat → Option Nat) (inv : CallFn) (start : Option Nat) (st2
     imported tables and memories arrive at their minimum size, empty -/
 def instantiate (m : ModuleM) (res : Nat → Option Nat) (inv : CallFn) : Inst :=
   let impGlobals : List V := m.imports.filterMap fun i => match i.2.2 with
-    | .global g => some (mkTy g.ty (strHash (i.1 ++ "." ++ i.2.1) % 1000))
+    | .global g =>
+      -- the host hands out a non-null reference for an imported externref global
+      let h := strHash (i.1 ++ "." ++ i.2.1) % 1000
+      some (if g.ty = "externref" then .xref (some h) else mkTy g.ty h)
     | _ => none
   match initGlobals res impGlobals m.globals with
   | none => .fail "unsupported constant expression"
